@@ -47,6 +47,8 @@ func runC08(c *Ctx) {
 	c01RootRelocation(c, "C08.11")
 	c02RecordDescribes(c, "C08.12")
 	c05KeywordLookup(c, "C08.13")
+	ruleLogLengthBound(c, "C08.14")
+	ruleRawReadOnBuffer(c, "C08.15", "storage.(*Tuple).Decode", "storage.(*Relation).Decode")
 }
 
 // ---- C08.1 -----------------------------------------------------------------
@@ -755,6 +757,7 @@ func runC14(c *Ctx) {
 	rulePostMutationInfallible(c, "C14.9")
 	c08Literals(c, "C14.10")
 	ruleNoRedundantSwitchBreak(c, "C14.11", "storage", "engine")
+	ruleNoStateBeforeRefusal(c, "C14.12")
 }
 
 func c14RowValidationFirst(c *Ctx, rule string) {
